@@ -41,6 +41,17 @@ class Fn:
         return f"Fn({self.label})"
 
 
+class PFn(Fn):
+    """callable data object with a dynamic __getattr__ (lazy proxy): every attribute the engine probes on it is an
+    event, and a fault there is the data's own exception like any other"""
+
+    def __getattr__(self, name):
+        if name.startswith("__") and name.endswith("__"):
+            raise AttributeError(name)
+        self.__dict__["plan"].event("probe", self.__dict__["label"] + "." + name)
+        raise AttributeError(name)
+
+
 class AFn(Fn):
     async def __call__(self, *a, **kw):
         self.plan.event("acall", self.label)
